@@ -94,8 +94,8 @@ Print Assumptions C10_renorm_sum.
 
 (* outside the guard the float result is not finite (0/0); on a descending non-negative
    spectrum this happens only for the all-zero spectrum *)
-Theorem C10_renorm_guard : forall (p : params) (s : list Q), s <> [] -> renorm p = true ->
-  qsum (fst (select p s)) == 0 -> truncate p s = Some (None, snd (select p s)).
+Theorem C10_renorm_guard : forall (p : params) (s : list Q), s <> [] -> bond_ok (max_bond p) ->
+  renorm p = true -> qsum (fst (select p s)) == 0 -> truncate p s = Some (None, snd (select p s)).
 Proof. exact renorm_zero. Qed.
 Print Assumptions C10_renorm_guard.
 
